@@ -116,6 +116,8 @@ def term_datasets(t):
     NIL = ["I", "http://www.w3.org/1999/02/22-rdf-syntax-ns#nil", None, None]
     out = [("object", [(A, P, t, None), (A, P, t, G)]),
            ("list-member-in-named-graph", [(A, P, B("c1"), G), (B("c1"), FIRST, A, G), (B("c1"), REST, B("c2"), G), (B("c2"), FIRST, t, G), (B("c2"), REST, NIL, G)])]
+    out.append(("list-cell-shared-across-graphs", [(A, P, B("c1"), G), (B("c1"), FIRST, A, G), (B("c1"), REST, B("c2"), G), (B("c2"), FIRST, t, G), (B("c2"), REST, NIL, G),
+                                                   (A, I("q"), B("c2"), None)]))
     if t[0] == "I":
         out.append(("subject+predicate", [(t, P, A, G), (A, t, A, None)]))
         out.append(("graph-name", [(A, P, A, t), (A, P, I("b"), None)]))
@@ -139,6 +141,22 @@ def _term_batch(arg):
                     viols.append({"sig": "%s|%s|term:%s" % (fmt, v[0], tc), "detail": v[1],
                                   "case": {"quads": [[list(x) if x is not None else None for x in q] for q in quads], "format": fmt, "term_class": tc}})
     return viols, n
+
+
+def name_as_term_universe():
+    """Every assignment of three triples that mention the blank node _:gb to subsets of {default, <g1>, _:gb}: the node that names a graph is also a term."""
+    gb = B("gb")
+    ts = [(I("a"), I("p"), gb), (gb, I("q"), L("x")), (I("a"), I("p"), I("a"))]
+    subsets = []
+    for r in range(len(GRAPHS) + 1):
+        subsets += list(itertools.combinations(range(len(GRAPHS)), r))
+    for assign in itertools.product(subsets, repeat=len(ts)):
+        quads = []
+        for ti, gs in enumerate(assign):
+            for gi in gs:
+                quads.append(ts[ti] + (GRAPHS[gi],))
+        if quads:
+            yield quads
 
 
 def patch_diff(q1, q2, horizon=10.0):
@@ -177,6 +195,15 @@ def run(ctx):
         ctx.add("evaluations", n)
         ctx.add("distinct_nontrivial", nt)
     ctx.cov["datasets"] = len(dss)
+    nat = list(name_as_term_universe())
+    # (TriX has no syntax for a blank-node graph name: a dataset in which such a name is also a term cannot be written in it)
+    fm = [f for f in FORMATS if f != "trix"]
+    res = R.pmap(_rt_batch, [(sh, fm) for sh in R.shards(nat, ctx.jobs * 4)], ctx.jobs)
+    for viols, n, nt in res:
+        ctx.extend(viols)
+        ctx.add("evaluations", n)
+        ctx.add("distinct_nontrivial", nt)
+    ctx.cov["datasets_with_graph_name_as_term"] = len(nat)
     # the term table of C03 through the quad syntaxes (TriG / TriX / N-Quads / RDF Patch / HexTuples are reachable only with datasets)
     from . import C03
     terms = C03.term_table(3 if thorough else 2, thorough)
